@@ -13,6 +13,7 @@ package c11
 import (
 	"errors"
 	"fmt"
+	"os"
 
 	"go.amzn.com/lambda/core"
 	"go.amzn.com/verifh/hx"
@@ -126,6 +127,7 @@ func gateBody(c0 uint16, waiters, operators, opsEach int, alphabet []opKind) fun
 		e := sched.Cur()
 		e.Values["rec"] = r
 		done := make([]int, operators)
+		inflight := make([]int, operators) // operation chosen but not yet performed (part of the state)
 		var wth []*sched.Thread
 		for w := 0; w < waiters; w++ {
 			w := w
@@ -160,7 +162,9 @@ func gateBody(c0 uint16, waiters, operators, opsEach int, alphabet []opKind) fun
 						break // shorter program
 					}
 					op := alphabet[k]
+					inflight[o] = int(op) + 1
 					got := apply(g, op)
+					inflight[o] = 0
 					want := m.step(op)
 					done[o]++
 					r.history = append(r.history, fmt.Sprintf("o%d:%s=%s", o, opNames[op], errStr(got)))
@@ -177,41 +181,43 @@ func gateBody(c0 uint16, waiters, operators, opsEach int, alphabet []opKind) fun
 			})
 		}
 		// semantic state key: real latch + every thread's position
-		sched.SetKeyFn(func() sched.Hash {
-			cnt, arr, can, ge := core.VerifGateState(g)
-			h := sched.Hash{A: uint64(cnt)<<32 | uint64(arr)<<8, B: 77}
-			if can {
-				h = h.Mix(1)
-			}
-			if ge != nil {
-				h = h.Mix(2)
-			}
-			for _, t := range e.Threads() {
-				x := uint64(0)
-				switch {
-				case t.Done():
-					x = 1
-				case t.Pend() == nil:
-					x = 2
-				default:
-					x = sched.HashString(t.Pend().Kind).A
-					if t.Enabled() {
-						x ^= 0xff
-					}
+		if os.Getenv("VERIF_NOKEYFN") == "" {
+			sched.SetKeyFn(func() sched.Hash {
+				cnt, arr, can, ge := core.VerifGateState(g)
+				h := sched.Hash{A: uint64(cnt)<<32 | uint64(arr)<<8, B: 77}
+				if can {
+					h = h.Mix(1)
 				}
-				h = h.Mix(x).Mix(sched.HashString(t.ID).A)
-			}
-			for w := range r.returned {
-				h = h.MixH(sched.HashString(r.result[w]))
-			}
-			for _, d := range done {
-				h = h.Mix(uint64(d) + 5)
-			}
-			if r.fail != nil {
-				h = h.Mix(99)
-			}
-			return h
-		})
+				if ge != nil {
+					h = h.Mix(2)
+				}
+				for _, t := range e.Threads() {
+					x := uint64(0)
+					switch {
+					case t.Done():
+						x = 1
+					case t.Pend() == nil:
+						x = 2
+					default:
+						x = sched.HashString(t.Pend().Kind).A
+						if t.Enabled() {
+							x ^= 0xff
+						}
+					}
+					h = h.Mix(x).Mix(sched.HashString(t.ID).A)
+				}
+				for w := range r.returned {
+					h = h.MixH(sched.HashString(r.result[w]))
+				}
+				for i, d := range done {
+					h = h.Mix(uint64(d) + 5).Mix(uint64(inflight[i]) + 50)
+				}
+				if r.fail != nil {
+					h = h.Mix(99)
+				}
+				return h
+			})
+		}
 		sched.WaitIdle()
 		// quiescent: nobody can move any more
 		for w := 0; w < waiters; w++ {
@@ -257,6 +263,7 @@ func init() {
 				s = append(s, gateScenario(c0, 2, 2, 2))
 			}
 			s = append(s, gateScenario(1, 3, 1, 3))
+			s = append(s, gateScenario(1, 2, 2, 1))
 		} else {
 			for c0 := uint16(0); c0 <= 2; c0++ {
 				s = append(s, gateScenario(c0, 3, 2, 3))
